@@ -96,9 +96,20 @@ def instantiate(facts, formulas, funcs, seeds=(), rounds=2, limit=40):
     return out
 
 
-def check_sat(formulas, timeout_ms=None, want_model=True, fallback=True):
+def check_sat(formulas, timeout_ms=None, want_model=True, fallback=True, cvc5_first=False):
     """satisfiability of a conjunction"""
     timeout_ms = timeout_ms or QUICK_TIMEOUT_MS
+    if cvc5_first:
+        s0 = z3.Solver()
+        for f in formulas:
+            if f is True:
+                continue
+            if f is False:
+                return Verdict("unsat", "trivial", 0.0), None
+            s0.add(f)
+        st, secs = run_cvc5(s0.to_smt2(), timeout_ms)
+        if st == "unsat":
+            return Verdict("unsat", "cvc5", secs), s0
     s = z3.Solver()
     s.set("timeout", timeout_ms)
     for f in formulas:
@@ -231,12 +242,14 @@ def reset_caches():
     _APPS_MEMO.clear()
 
 
-def prove(assumptions, goal, timeout_ms=None):
+def prove(assumptions, goal, timeout_ms=None, cvc5_first=False):
     """validity of  /\\ assumptions -> goal"""
     if goal is True:
         return Verdict("unsat", "trivial", 0.0), None
     fs = [alg.lift(a) for a in assumptions if a is not True]
     fs.append(z3.Not(alg.lift(goal)))
+    if cvc5_first:
+        return check_sat(fs, timeout_ms, cvc5_first=True)
     _NL_KEEP.extend(fs)  # keep the terms alive: the memo is keyed by ast id
     abstracted = [abstract_nl(f, _NL_MEMO) for f in fs]
     if any(a is not f for a, f in zip(abstracted, fs)):
